@@ -32,7 +32,7 @@ from ..shrink import get_at, paths, replace_at, shrink
 PID = "C16"
 RULE = ("Hypothesis-generated descriptions: (vec) 1-5 terms K*W with W an atomic vector (VectorSymbol or applied "
     "VectorFunction), a sum of atoms or a cross product of flat combinations, K from numbers (incl. -1, rationals), "
-    "scalar symbols, their sums/products/quotients/squares, dot/norm/mixed of pool vectors (may mention the unknown); "
+    "scalar symbols, their sums/products/quotients/squares/roots, applied sin/cos/exp factors, dot/norm/mixed of pool vectors (may mention the unknown); "
     "given as expression or Eq (generated split), any pool atom as unknown with forced classes "
     "(once / several terms / visible only after expand / only inside a product or coefficient / absent / cancelled), "
     "reduce_factor on/off; refusal cases (scalar expression, vector+scalar sum); (scalar) degree<=2 polynomial or "
@@ -118,6 +118,8 @@ def ev(d: Any, env: dict[str, Any]) -> Any:
     if op == "pow2":
         a = ev(d[1], env)
         return a * a
+    if op == "fn":
+        return {"sin": MP.sin, "cos": MP.cos, "exp": MP.exp}[d[1]](ev(d[2], env))
     if op == "sqrtS":
         a = ev(d[1], env)
         if a < 0:
@@ -270,7 +272,7 @@ def _flat(draw: Any, lo: int, hi: int) -> Any:
 def _coef(draw: Any, lo: int, hi: int, vectors: bool = True) -> Any:
     """A scalar coefficient; atoms used inside dot/norm/mixed come from pool[lo:hi]."""
     kinds = ["num", "num", "sym", "sym", "numsym", "symsym", "sum", "sumsym", "quot", "quot2", "quotsum", "square", "sqsum",
-        "rootprod"]
+        "rootprod", "fn", "fnsym", "fnquot"]
     if vectors and hi - lo >= 1:
         kinds += ["dot", "dot", "norm", "norm", "dotsym", "normquot", "dotflat"]
         if hi - lo >= 3:
@@ -295,6 +297,12 @@ def _coef(draw: Any, lo: int, hi: int, vectors: bool = True) -> Any:
         return ["div", draw(s), ["addS", draw(s), draw(n)]]
     if kind == "quotsum":
         return ["div", ["addS", draw(s), draw(n)], draw(s)]
+    if kind in ("fn", "fnsym", "fnquot"):
+        # an applied elementary function as a top-level factor of the coefficient (sin(t) * b, b / exp(t), p * cos(t) * b)
+        f = ["fn", draw(st.sampled_from(("sin", "cos", "exp"))), draw(st.one_of(s, s.map(lambda x: ["negS", x])))]
+        if kind == "fn":
+            return f
+        return ["mul", draw(s), f] if kind == "fnsym" else ["div", draw(st.one_of(n, s)), f]
     if kind == "rootprod":
         # a root of a product / quotient / square of real symbols: sqrt(x*y) is NOT sqrt(x)*sqrt(y) for negative values
         inner = draw(st.sampled_from(("mul", "mul", "div", "pow2")))
@@ -520,6 +528,8 @@ class Built:
             return b(d[1]) / b(d[2])
         if op == "pow2":
             return b(d[1])**2
+        if op == "fn":
+            return {"sin": sympy.sin, "cos": sympy.cos, "exp": sympy.exp}[d[1]](b(d[2]))
         if op == "sqrtS":
             return sympy.sqrt(b(d[1]))
         if op == "cross":
